@@ -529,6 +529,19 @@ def cases_C12(tier, seed):
             for m in range(0, n + 1):
                 vals = " ".join(str(20 + i) for i in range(m))
                 cases.append(pre + [f"clone_from {rot} {vals}".rstrip(), "len", "drop"])
+    for n, st, sz in big_layouts(tier):         # capacities above the exhaustive scope (block-wise copies, thresholds)
+        pre = layout_prefix(n, st, sz)
+        cases.append(pre + ["clone", "len", "to_vec", "into_iter " + "F" * (sz + 1), "drop"])
+        cases.append(pre + ["clone", "into_iter " + "B" * (sz + 1), "drop"])
+        cases.append(pre + ["into_iter " + "FB" * (sz // 2 + 1), "drop"])
+        for rot in sorted({0, 1, n // 2, n - 1}):
+            for m in sorted({0, 1, 7, 8, 9, n // 2, n - 1, n}):
+                if m <= n:
+                    vals = " ".join(str(20 + i) for i in range(m))
+                    cases.append(pre + [f"clone_from {rot} {vals}".rstrip(), "len", "into_iter " + "F" * (m + 1), "drop"])
+        for m in sorted({n - 1, n, n + 1, n + 7, n + 8, n + 9, 2 * n + 1}):
+            cases.append([f"case {n} t", f"from_iter {m}", "len", "into_iter " + "F" * (n + 1), "drop"])
+            cases.append(pre + [f"extend {m}", "len", "into_iter " + "B" * (n + 1), "drop"])
     return cases
 
 
@@ -559,6 +572,27 @@ def cases_C13(tier, seed):
             if sz:
                 ops.append("eq_slice " + " ".join(str(v) for v in (list(word[:-1]) + [3 - word[-1]])))
             cases.append(pre2 + ops + ["drop"])
+    for n, st, sz in big_layouts(tier):         # same-capacity comparisons above the exhaustive scope
+        word = [1 + (i * 7 % 3 > 0) for i in range(sz)]
+        pre2 = [f"case {n} t"] + ["push_back 0", "pop_front"] * st + [f"push_back {v}" for v in word]
+        ops = ["hash", "debug"]
+        variants = [list(word)]
+        for j in sorted({0, 6, 7, 8, 9, 15, 16, sz // 2, sz - 1}):
+            if 0 <= j < sz:
+                w = list(word); w[j] = 3 - w[j]; variants.append(w)
+        if sz:
+            variants.append(word[:-1])
+            variants.append(word[:sz // 2])
+        if sz < n:
+            variants.append(word + [1])
+        for rot in sorted({0, 1, n // 2, n - 1}):
+            for w in variants:
+                vals = " ".join(str(v) for v in w)
+                ops.append(f"eq {n} {rot} {vals}".rstrip())
+                ops.append(f"cmp {n} {rot} {vals}".rstrip())
+        for w in variants:
+            ops.append(("eq_slice " + " ".join(str(v) for v in w)).rstrip())
+        cases.append(pre2 + ops + ["drop"])
     return cases
 
 
